@@ -403,7 +403,7 @@ PROPS = {
     "C10": {
         "level": "proof",
         "lean_modules": ["SqlizeModel.Props.C10", "SqlizeModel.Props.TieBuilder", "SqlizeModel.Props.TieTemplates"],
-        "theorems": ["Sqlize.C10.keyword_spellings", "Sqlize.C10.keywords_fixed", "Sqlize.C10.apply_only_case", "Sqlize.C10.hash_case_free", "Sqlize.Tie.builder_skeleton_as_modelled", "Sqlize.Tie.templates_skeleton_as_modelled"],
+        "theorems": ["Sqlize.C10.keyword_spellings", "Sqlize.C10.keywords_fixed", "Sqlize.C10.apply_only_case", "Sqlize.C10.hash_case_free", "Sqlize.C10.keyword_case_statement", "Sqlize.C10.keyword_case_migration", "Sqlize.render_case_only", "Sqlize.migration_case_only", "Sqlize.sprintfAux_case", "Sqlize.templates_ok", "Sqlize.definition_case", "Sqlize.opt_case", "Sqlize.Tie.builder_skeleton_as_modelled", "Sqlize.Tie.templates_skeleton_as_modelled"],
         "suites": [{"name": "struct", "kind": "struct"}, {"name": "hash"}, {"name": "pair"}],
         "corr_points": ["AddTable", "AddTable-other-case", "StringUp-other-case", "StringDown-other-case"],
         "rule": STRUCT_RULE + " | C10: per tag keyword a random camelCase / snake_case spelling and a shuffled item order, the expected schema does not "
@@ -415,6 +415,11 @@ PROPS = {
         "assumptions": ["exported ASCII field names"],
         "explanation": "Proved by kernel evaluation of the ToSnakeCase model: every documented camelCase spelling normalises to the keyword the tag "
                        "switch tests; proved over the regenerated templates: the lower-case option is exactly ASCII lower-casing of the template; "
-                       "fingerprint independent of the option (C07).",
+                       "fingerprint independent of the option (C07); and for every dialect, statement and migration (identifiers, literals, comments, type names of any spelling): "
+                       "the text printed under the lower-case option and the text printed without it are equal up to ASCII case and fail with the same message when the renderer fails "
+                       "(keyword_case_statement, keyword_case_migration; Proofs/CaseOnly: the option reaches the text through the template — lower-cased before substitution — and the option keywords only; "
+                       "fmt.Sprintf's scanner sees the same verbs in a template and in its lower-casing because no % of a regenerated template is followed by a capital S, D, T: templates_ok, kernel evaluation over Generated/Facts.lean; "
+                       "hypothesis: a user-given index type, which becomes part of the template, contains no %S/%D/%T). The first proof needed a second hypothesis (no definition whose PRIMARY KEY is stripped); "
+                       "run on the real code, the excluded point was a genuine defect (MODIFY of a key column cut the words out of a comment containing them), repaired in /repo (29f88f1), and the hypothesis is gone.",
     },
 }
